@@ -10,6 +10,7 @@ import (
 	cmtproto "github.com/cometbft/cometbft/proto/tendermint/types"
 	cmttypes "github.com/cometbft/cometbft/types"
 	sdk "github.com/cosmos/cosmos-sdk/types"
+	"github.com/ethereum/go-ethereum/common"
 	"github.com/ethereum/go-ethereum/core/types/goattypes"
 	lockingtypes "github.com/goatnetwork/goat/x/locking/types"
 
@@ -321,7 +322,14 @@ func c14History(c *vc.Ctx, idx int) {
 	if idx%3 == 2 {
 		maxVals = 2 // fewer seats than candidates: members are demoted while CometBFT still lists them in the last commit
 	}
-	cfg := lockCfg{Label: "c14", NVals: nv, MaxVals: maxVals, Blocks: c.Pick(80, 200), Protect0: true, JumpTime: idx%3 == 0, TargetPunished: true, EvidenceAges: true, TimeEdges: true,
+	rotation := idx%8 == 7
+	var powers []uint64
+	if rotation {
+		// directed scenario (below): two seats, validator 1 holds the second one, validator 2 is the strongest candidate outside
+		maxVals = 2
+		powers = []uint64{300, 120, 100, 90, 90}[:nv]
+	}
+	cfg := lockCfg{Label: "c14", NVals: nv, MaxVals: maxVals, Powers: powers, Blocks: c.Pick(80, 200), Protect0: true, JumpTime: idx%3 == 0, TargetPunished: true, EvidenceAges: true, TimeEdges: true,
 		W: lockWeights{Create: 6, Lock: 55, Unlock: 20, Claim: 2, Weight: 4, Threshold: 5, Absent: 45, Evidence: 9, DustLock: 10},
 		Params: func(p *lockingtypes.Params) {
 			p.SignedBlocksWindow = int64(6 + r.Intn(5))
@@ -349,7 +357,15 @@ func c14History(c *vc.Ctx, idx int) {
 	defer h.close()
 	mon := newC14Mon(h)
 	h.crashFn = func(cr *world.ErrCrash) { c.Inconclusive("FinalizeBlock failed (reported under C13): %v", cr) }
-	directed := idx%4 == 3
+	directed := idx%4 == 3 && !rotation
+	w0 := h.cfg.W
+	if rotation {
+		// directed scenario: validator 1 misses one block less than the maximum, is then rotated out by validator 2 (a lock
+		// makes it stronger), comes back when validator 2 unlocks again, and misses one more block: a validator that
+		// re-enters the set starts with a clean signing record, so it must not be jailed
+		h.cfg.W = lockWeights{Claim: 5}
+		h.cfg.JumpTime = false
+	}
 	if directed {
 		// directed scenario: validator 1 misses the maximum in a row, is jailed for 60 s = 20 blocks, and gets a
 		// lock request in every block from 3 before to 3 after the end of the jail (one lands exactly at it)
@@ -358,6 +374,36 @@ func c14History(c *vc.Ctx, idx int) {
 		h.absentRun[1] = int(h.post.Locking.Params.MaxMissedPerWindow) + 1
 	}
 	for b := 0; b < cfg.Blocks && !h.failed; b++ {
+		if rotation {
+			M := int(h.post.Locking.Params.MaxMissedPerWindow)
+			big30 := new(big.Int).Mul(pow10(18), big.NewInt(30))
+			switch b - 4 {
+			case 0:
+				h.absentRun[1] = M - 1
+			case M + 1:
+				h.extra = func(o *blockOps) {
+					lr := &goattypes.LockRequest{Validator: h.vals[2].Addr, Token: tokBTC, Amount: big30}
+					o.Reqs.Locking.Locks = append(o.Reqs.Locking.Locks, lr)
+					o.locks = append(o.locks, lr)
+					o.Desc = append(o.Desc, "lock v2: stronger than v1, which is rotated out")
+				}
+			case M + 5:
+				h.extra = func(o *blockOps) {
+					rec := &unlockRec{ID: h.nextUID, Val: 2, Token: tokBTC, Requested: big30}
+					h.nextUID++
+					o.unlocks = append(o.unlocks, rec)
+					o.Reqs.Locking.Unlocks = append(o.Reqs.Locking.Unlocks, &goattypes.UnlockRequest{Id: rec.ID, Validator: h.vals[2].Addr, Recipient: common.BigToAddress(big.NewInt(int64(0x1000 + rec.ID))), Token: tokBTC, Amount: big30})
+					o.Desc = append(o.Desc, "unlock v2: v1 returns to the set")
+				}
+			case M + 10:
+				if v := h.post.Validator(h.vals[1].Key.Cons); v != nil && v.Status == lockingtypes.Active {
+					h.absentRun[1] = 1
+					c.Count("rotation_scenarios_with_an_absence_after_the_return", 1)
+				}
+			case M + 14:
+				h.cfg.W = w0
+			}
+		}
 		if directed {
 			if j, ok := mon.jailed[1]; ok {
 				next := h.ch.Height + 1
